@@ -2,6 +2,7 @@
 //! Usage: nvh <suite> --seed N --cases N --out FILE [--steps N] [--only CASE]
 mod client_suite;
 mod codec_suite;
+mod direct_suite;
 mod lat_suite;
 mod oracle;
 mod pool_suite;
@@ -183,6 +184,12 @@ fn main() {
     "codec" => {
       let exhaustive = a.extra.get("exhaustive").is_some_and(|v| v == "1");
       let t = codec_suite::run_suite(a.seed, a.cases, exhaustive);
+      std::fs::write(&a.out, t).expect("write transcript");
+    },
+    "direct" => {
+      let (rt, local) = local_rt();
+      let (seed, cases) = (a.seed, a.cases);
+      let t = local.block_on(&rt, async move { direct_suite::run_suite(seed, cases).await });
       std::fs::write(&a.out, t).expect("write transcript");
     },
     "lat" => {
